@@ -132,6 +132,26 @@ impl<'a> BootInformation<'a> {
 //@    ensures r == spec_end_tag_ok(ref_prov(self.0), ref_addr(self.0) as int, val_size(self.0) as int),
 //@end
 
+//@extract multiboot2/src/boot_information.rs :: impl<'a> BootInformation<'a> :: fn as_ptr
+//@  ret r
+//@  rules R2b
+//@  spec:
+//@    ensures r@.addr == ref_addr(self.0), r@.provenance == ref_prov(self.0),
+//@end
+
+//@extract multiboot2/src/boot_information.rs :: impl<'a> BootInformation<'a> :: fn start_address
+//@  ret r
+//@  spec:
+//@    ensures r == ref_addr(self.0),    // C02: the reported start address is the pointer
+//@end
+
+//@extract multiboot2/src/boot_information.rs :: impl<'a> BootInformation<'a> :: fn end_address
+//@  ret r
+//@  spec:
+//@    requires self.wf(),
+//@    ensures r == ref_addr(self.0) + dyn_hdr(self.0).total_size,   // C02: pointer plus declared size
+//@end
+
 //@extract multiboot2/src/boot_information.rs :: impl<'a> BootInformation<'a> :: fn total_size
 //@  ret r
 //@  spec:
